@@ -10,6 +10,18 @@ BASELINE_OFF = ("for m in $(cat /w/out/gomods.txt); do MF=$(cd /repo/$m && . /w/
 
 # id -> (technique, level text, level note, design ref)
 CHECKS = {
+    "C19": (
+        "Stateless.tla (canonical chain, provider responses with per-field Orig/Altered/FromHeight, caches) checked by TLC; emitted "
+        "(request, alteration) cases concretised on the real verification functions (hook H2) and a real stateless Core; outcomes "
+        "validated by TLC against TraceStateless.tla (rule only)",
+        "Exhaustive TLC check of the operational model against the declarative rule for 3-4 heights, all single and double "
+        "alterations and request orders <= 4-5; every emitted case is executed on the recorded mainnet vectors and synthetic chains "
+        "(field-level, and byte-level wire mutants in the thorough tier), transaction proofs for every list size 0..16 and index; "
+        "a violation is an accepted response whose semantic projection differs from the canonical one, an honest response rejected, "
+        "a cache holding a non-canonical value, or a panic.",
+        "Trusted: TLC, JSON bridge, hook H2 (export wrappers). Verification functions, caches and a Core over a pre-populated light "
+        "store; not the live light client / P2P provider. Four open known findings are components no CometBFT header hash covers.",
+        "DESIGN.md 4 C19"),
     "C06": (
         "NodeDB.tla contract model checked by TLC; one history per distinct (operation, state) pair replayed on real badger and "
         "pathbadger with full read-back after every step, plus a full reader at every durable-write point (hook H1)",
